@@ -94,6 +94,7 @@ func (d *Drv) batchCbPtrs(op *Op, x *Exp, cs []int) func(ecs.Entity, typed.Ptrs)
 			d.viol("C09", "batch-cb-unlocked", "world not locked inside batch callback")
 		}
 		d.structuralRejected("batch callback")
+		d.poke("batch callback of " + op.K.String())
 		d.leakQuery(op)
 		if !d.W.Alive(h) {
 			d.viol("C06", "batch-cb-dead", "batch callback for dead entity %v", h)
@@ -120,6 +121,7 @@ func (d *Drv) batchCbEnt(x *Exp) func(ecs.Entity) {
 			d.viol("C09", "batch-cb-unlocked", "world not locked inside batch callback")
 		}
 		d.structuralRejected("batch callback")
+		d.poke("batch callback of " + x.Op.K.String())
 		d.leakQuery(x.Op)
 	}
 }
@@ -364,7 +366,7 @@ func (d *Drv) exec(op *Op, x *Exp) {
 				}
 			} else {
 				ex := typed.Tuples[op.Tuple].NewExch(d.W, d.viaNew())
-			d.curExch = ex
+				d.curExch = ex
 				switch op.Fn {
 				case FnValue:
 					ex.Add(h, op.Vals, rel)
